@@ -1,13 +1,13 @@
 SPECIFICATION GSpec
 VIEW GView
 CONSTANTS
-  Names = {"a", "b"}
-  IntVals <- IV_small
+  Names = {"a", "b", "c"}
+  IntVals <- IV_quick
   Specials = {"none"}
-  DispNames = {"", "x"}
+  DispNames = {"x"}
   MaxPieces = 2
   MaxExt = 1
-  MaxDepth = 2
+  MaxDepth = 1
   AsImpl = {}
-  Families = {"look", "conv", "mut", "eqe"}
+  Families = {"cmp"}
 CHECK_DEADLOCK FALSE
